@@ -235,7 +235,7 @@ pub const LANGS: &[Lang] = &[
     Lang {
         id: "ruby",
         line: &["#"],
-        block: None,
+        block: Some(("=begin", "=end")),
         nests: false,
         star: false,
         trailing_line: true,
